@@ -18,8 +18,20 @@ Variable d : dfa.
 Definition is_end (s : sym) : bool := N.eqb s sym_end.
 
 (** what the code after a state's if-chain returns when nothing (more) applies *)
+(** where a parser that end() has failed for good is left (fix e-sticky: every later call answers FAIL too): the fail state,
+    or - when it was removed as unreachable - the first index that is not a state *)
+Fixpoint fail_index_go (sts : list state) (i : nat) : nat :=
+  match sts with
+  | [] => i
+  | SFail :: _ => i
+  | _ :: r => fail_index_go r (S i)
+  end.
+Definition fail_index : nat := fail_index_go (d_states d) 0.
+
 Definition source_return (src : nat) (s : sym) : leaf :=
-  LRet (if accepting d src then RDone else if is_end s then RFail else ROk) src false.
+  if accepting d src then LRet RDone src false
+  else if is_end s then LRet RFail fail_index false
+  else LRet ROk src false.
 
 (** [goes_on]: the transition has a target state, or a break has just set the state it leaves for (the code behind the
     skip label goes on exactly as if the target existed; a target is absent only when it was removed as unreachable) *)
@@ -31,7 +43,8 @@ Definition epilogue (rec : nat -> tree) (src : nat) (s : sym) (t : trans) (qc : 
   else if is_end s then
     (* end(): an `end` pattern matched here; DONE when the program is complete behind it (the transition's own target is an
        accepting state) or was complete already, else FAIL *)
-    Leaf (LRet (if (match t_tgt t with Some q => accepting d q | None => false end) || accepting d src then RDone else RFail) qc false)
+    (if (match t_tgt t with Some q => accepting d q | None => false end) || accepting d src then Leaf (LRet RDone qc false)
+     else Leaf (LRet RFail fail_index false))
   else if goes_on then Leaf (LConsume qc) else Leaf (source_return src s).
 
 Fixpoint run_acts (rec : nat -> tree) (src : nat) (s : sym) (t : trans) (a : atree) (qc : nat) (adv : bool) : tree :=
